@@ -89,6 +89,9 @@ func runSeq(prop string) *ShardResult {
 	cfgs := []core.Config{{SegSize: 128}, {SegSize: 64}, {SegSize: 4096}}
 	switch prop {
 	case "C05":
+		// fourth configuration: a file system that reports io.EOF together with a full read ending at the end
+		// of the file (io.ReaderAt allows both); matters where a segment file ends exactly at a frame
+		cfgs = append(cfgs, core.Config{SegSize: 64, EagerEOF: true})
 		sc.Depth, sc.RealDepth = 5, 2
 		if thorough {
 			sc.Depth, sc.RealDepth = 6, 3
